@@ -65,6 +65,9 @@ pub fn gen_with(with_adversary: bool, kinds: Vec<u8>, caps: Vec<usize>, max_ops:
     .prop_map(|(layout, mut progs, adv, walks, pct, pre2)| {
         progs.truncate(if adv.is_empty() { 3 } else { 2 });
         progs.extend(adv);
+        let mut layout = layout;
+        // a third of the layouts carry aged debris of crashed writers in every temp directory
+        layout.stale_debris = fnv(format!("{:?}", progs).as_bytes()) % 3 == 0;
         Gen { layout, progs, walks, pct, pre2 }
     })
 }
@@ -141,6 +144,9 @@ pub fn run(ctx: &Ctx) -> Report {
                 }
                 if g.layout.dirs_missing {
                     rep.label("directories initially missing");
+                }
+                if g.layout.stale_debris {
+                    rep.label("aged debris in the temp directories");
                 }
                 if lost > 0 && rep.samples.len() < 2 {
                     let smp = json!({"layout": g.layout, "programs": g.progs, "strategy": s, "picks": ex.picks, "races_lost": lost});
